@@ -313,7 +313,7 @@ pub fn gen_mixed(rng: &mut Rng) -> Op {
         _ => {
             let fam = if rng.chance(1, 2) { "up" } else { "ip" };
             let (n, m) = prim_value(rng);
-            Op::new(&format!("{}.{}", fam, rng.pick(&BIN))).a(a).dst(d).n(n).m(m).form(rng.below(12) * 16 + rng.below(11))
+            Op::new(&format!("{}.{}", fam, rng.pick(&BIN))).a(a).dst(d).n(n).m(m).form(rng.below(12) * 16 + rng.below(12))
         }
     }
 }
